@@ -21,8 +21,6 @@ fn probe_ro<V: TooDeeOps<u32>>(v: &V, c: usize, r: usize, in_range: bool) -> Vec
         ("[(c,r)]", guarded(|| Some(addr(&v[(c, r)])))),
         ("[r][c]", guarded(|| Some(addr(&v[r][c])))),
         ("col(c)[r]", guarded(|| Some(addr(&v.col(c)[r])))),
-        ("col(c).nth(r)", guarded(|| v.col(c).nth(r).map(addr))),
-        ("rows().nth(r)[c]", guarded(|| v.rows().nth(r).map(|row| addr(&row[c])))),
     ];
     if in_range {
         out.push(("get_unchecked", guarded(|| Some(addr(unsafe { v.get_unchecked((c, r)) })))));
@@ -37,8 +35,6 @@ fn probe_rw<V: TooDeeOpsMut<u32>>(v: &mut V, c: usize, r: usize, in_range: bool)
     out.push(("mut [r][c]", guarded(|| Some(addr(&mut v[r][c])))));
     out.push(("col_mut(c)[r]", guarded(|| Some(addr(&v.col_mut(c)[r])))));
     out.push(("mut col_mut(c)[r]", guarded(|| Some(addr(&mut v.col_mut(c)[r])))));
-    out.push(("col_mut(c).nth(r)", guarded(|| v.col_mut(c).nth(r).map(|e| addr(e)))));
-    out.push(("rows_mut().nth(r)[c]", guarded(|| v.rows_mut().nth(r).map(|row| addr(&row[c])))));
     if in_range {
         out.push(("get_unchecked_mut", guarded(|| Some(addr(unsafe { v.get_unchecked_mut((c, r)) })))));
         out.push(("get_unchecked_row_mut[c]", guarded(|| Some(addr(&unsafe { v.get_unchecked_row_mut(r) }[c])))));
@@ -151,8 +147,8 @@ impl Prop for C02P {
     fn rule(&self) -> String {
         "for every receiver (owned arrays of every shape; TooDeeView and TooDeeViewMut over every window of every parent; views of views; views built directly over a slice, exact or with surplus cells) and every coordinate in (0..=dim+1)^2 plus huge values \
          (the fixed set 2^31, 2^32, 2^63, usize::MAX/2, MAX/2+1, MAX-1, MAX and every out-of-range index whose product with the receiver's stride wraps back into the column slice): \
-         in range => x[(c,r)], x[r][c], col(c)[r], col(c).nth(r), rows().nth(r)[c], their mutable forms and the unchecked getters all yield the ADDRESS of the expected root cell; \
-         out of range => every checked accessor panics (iterator nth may return None) and the root is unchanged. A case is (receiver, coordinate) with all accessors probed; non-trivial = in-range coordinate; distinct by (receiver, coordinate)."
+         in range => x[(c,r)], x[r][c], col(c)[r], their mutable forms (IndexMut, col_mut(c)[r] through Index and IndexMut) and the four unchecked getters all yield the ADDRESS of the expected root cell; \
+         out of range => every checked accessor panics and the root is unchanged. A case is (receiver, coordinate) with all accessors probed; non-trivial = in-range coordinate; distinct by (receiver, coordinate)."
             .into()
     }
     fn bound(&self, tier: Tier) -> String {
